@@ -327,6 +327,7 @@ class Callee:
                 nb = st.new_base(ex.D, name='ret_' + con.qual.split('.')[-1]); pnames[a] = nb; fresh_made[a] = nb
         sub2 = _SubCtx(ex, pre, pnames, bound, con)
         st.callee_log.append((con, sub2))                 # so that goals can instantiate the callee's spec definitions at their skolems
+        st.assume += list(con.spec_instances(sub2, z3.IntVal(0)))      # order-0 definitions: needed for domain preconditions of later calls
         st.assume += list(con.extra_axioms(sub2))
         for label, f in con.ensures(sub2): st.assume.append(f)
         sub2.assumed = True
